@@ -295,6 +295,8 @@ void World::server_handle(VFd &s, bool tcp, const std::string &wire, size_t stre
   Tx tx;
   tx.id = (int)txs.size(); tx.t = now_us; tx.fd = s.fd; tx.server = s.server_idx; tx.tcp = tcp; tx.wire = wire;
   tx.api_seq = api_seq; tx.cb_depth = cb_depth; tx.stream_off = stream_off; tx.seq = seq; tx.src_ip = s.local.ipstr();
+  tx.deferred = !tcp && next_tx_deferred;
+  tx.lseq = tx.deferred ? next_tx_lseq : seq;
   tx.decode_err = decode(wire, tx.msg);
   if (tx.decode_err.find("name longer than 255") != std::string::npos) {
     // a name of 256/257 octets: malformed by RFC 1035 but self-consistent; decode leniently and report it separately
